@@ -602,6 +602,11 @@ func tableFieldLoads(mm *core.MapModel, v ssa.Value, out map[ssa.Value]string, s
 		for _, e := range x.Edges {
 			tableFieldLoads(mm, e, out, seen, depth+1)
 		}
+	case *ssa.Parameter:
+		// a value the only caller read from the table and handed in (loads hoisted out of the copy loop)
+		if a := mm.UniqueArg(x); a != nil {
+			tableFieldLoads(mm, a, out, seen, depth+1)
+		}
 	}
 }
 
@@ -632,7 +637,8 @@ func c11L3(r *Run, rep *core.Report) {
 				// in the copy routine the single table must be the destination parameter
 				if okOne && f == mm.Copy {
 					for v := range roots {
-						if _, isParam := v.(*ssa.Parameter); !isParam {
+						if _, isParam := v.(*ssa.Parameter); !isParam && !freshTableValue(mm, v, 0) {
+							// (with the loads hoisted into the caller the table is the caller's: it must be the new one)
 							okOne = false
 						}
 					}
@@ -834,6 +840,30 @@ func c11Floor(r *Run, rep *core.Report) {
 	}
 }
 
+// freshTableValue: the table value is, on every alternative, the result of the table constructor.
+func freshTableValue(mm *core.MapModel, v ssa.Value, depth int) bool {
+	if depth > 4 {
+		return false
+	}
+	switch x := core.StripConv(v).(type) {
+	case *ssa.Call:
+		return core.Callee(x) == mm.NewTable
+	case *ssa.Phi:
+		n := 0
+		for _, e := range x.Edges {
+			if core.IsNilConst(e) {
+				continue
+			}
+			if !freshTableValue(mm, e, depth+1) {
+				return false
+			}
+			n++
+		}
+		return n > 0
+	}
+	return false
+}
+
 func collectFields(mm *core.MapModel, v ssa.Value, out map[ssa.Value]string) {
 	tableFieldLoads(mm, v, out, map[ssa.Value]bool{}, 0)
 }
@@ -869,6 +899,10 @@ func fieldSet(mm *core.MapModel, v ssa.Value) map[string]bool {
 		case *ssa.Phi:
 			for _, e := range x.Edges {
 				walk(e, d+1)
+			}
+		case *ssa.Parameter:
+			if a := mm.UniqueArg(x); a != nil {
+				walk(a, d+1)
 			}
 		}
 	}
@@ -988,6 +1022,20 @@ func tableLenForm(r *Run, mm *core.MapModel, v ssa.Value) (string, bool) {
 		}
 	case *ssa.Parameter:
 		return "parameter", true
+	case *ssa.Phi:
+		// a length chosen by assignment (n := minLen; if big { n = nextPowOf2(...) }): every alternative is of an accepted form
+		var ds []string
+		for _, e := range x.Edges {
+			if core.StripConv(e) == ssa.Value(x) {
+				continue
+			}
+			d, ok := tableLenForm(r, mm, core.StripConv(e))
+			if !ok {
+				return d, false
+			}
+			ds = append(ds, d)
+		}
+		return "one of: " + strings.Join(ds, "; "), len(ds) > 0
 	}
 	return v.Name(), false
 }
